@@ -132,7 +132,8 @@ func (win Window) New(col int, row int, cols int, rows int) Window
 
 -- ------------------------------------------------------------------ mouse (C03)
 
-pred CSIWF(seq ansi.CSI) = forall i in 0..len(seq.Parameters): len(seq.Parameters[i]) >= 1
+pred CSIWF(seq ansi.CSI) = forall i in 0..len(seq.Parameters): (len(seq.Parameters[i]) >= 1
+       && (forall j in 0..len(seq.Parameters[i]): (0 <= seq.Parameters[i][j] && seq.Parameters[i][j] <= 2147483647)))
 
 func parseMouseEvent(seq ansi.CSI) (Mouse, bool)
   requires wf: CSIWF(seq)
@@ -175,6 +176,73 @@ func (k Key) Matches(key rune, modifiers ...ModifierMask) bool
          || (mods % 2 == 1 && unicode_IsLower(old(key))))
   -- the chord the user pressed always matches its own binding
   ensures C09_self: (key == k.Keycode && len(modifiers) == 1 && modifiers[0] == k.Modifiers) ==> result
+
+-- decodeKey (C09): exact decoding per encoding. C0, ESC-prefixed and SS3 reports are fully specified;
+-- for CSI reports the parameter walk is proved panic-free for every sequence the parser can deliver.
+pred C0Key(c rune) = (c == 8 ? KeyBackspace : (c == 9 ? KeyTab : (c == 13 ? KeyEnter : (c == 27 ? KeyEsc
+                      : (c == 0 ? 64 : (c <= 26 ? c + 96 : (c < 32 ? c + 64 : 0)))))))
+pred SS3Key(c rune) = (c == 65 ? KeyUp : (c == 66 ? KeyDown : (c == 67 ? KeyRight : (c == 68 ? KeyLeft
+                      : (c == 70 ? KeyEnd : (c == 72 ? KeyHome : (c == 80 ? KeyF01 : (c == 81 ? KeyF02
+                      : (c == 82 ? KeyF03 : (c == 83 ? KeyF04 : 0))))))))))
+
+-- CSI reports (kitty keyboard protocol and xterm/legacy forms):
+--   CSI key[:shifted[:base]] ; mods[:event] ; text... final      (omitted parameter list means key 1)
+pred KC0(s ansi.CSI) = s.Parameters[0][0]
+pred IsShiftTab(s ansi.CSI) = KC0(s) == 1 && s.Final == 90
+pred KC(s ansi.CSI) = IsShiftTab(s) ? KeyTab
+        : (maphas(specialsKeys, mk("specialKey", KC0(s), s.Final)) ? mapval(specialsKeys, mk("specialKey", KC0(s), s.Final)) : KC0(s))
+pred SC(s ansi.CSI) = len(s.Parameters[0]) >= 2 ? s.Parameters[0][1] : 0
+pred BC(s ansi.CSI) = len(s.Parameters[0]) >= 3 ? s.Parameters[0][2] : 0
+pred MODS(s ansi.CSI) = len(s.Parameters) >= 2 ? max(s.Parameters[1][0] - 1, 0) : (IsShiftTab(s) ? 1 : 0)
+pred ET(s ansi.CSI) = (len(s.Parameters) >= 2 && len(s.Parameters[1]) >= 2) ? s.Parameters[1][1] - 1 : 0
+-- the "27;mods;key~" form carries the key in the third parameter
+pred KCfinal(s ansi.CSI) = (len(s.Parameters) >= 3 && KC(s) == 27 && s.Final == 126) ? s.Parameters[2][0] : KC(s)
+
+-- state of the key being built after the first k+1 parameter lists have been consumed
+pred KeyState(key Key, s ansi.CSI, k int) =
+     (k < 0 ==> (key.Keycode == 0 && key.ShiftedCode == 0 && key.BaseLayoutCode == 0 && key.Modifiers == 0 && key.EventType == 0))
+  && (k >= 0 ==> (key.ShiftedCode == SC(s) && key.BaseLayoutCode == BC(s)))
+  && ((k == 0 || k == 1) ==> key.Keycode == KC(s))
+  && (k == 0 ==> (key.Modifiers == (IsShiftTab(s) ? 1 : 0) && key.EventType == 0))
+  && (k >= 1 ==> (key.Modifiers == MODS(s) && key.EventType == ET(s)))
+  && (k >= 2 ==> key.Keycode == KCfinal(s))
+
+func decodeKey(seq ansi.Sequence) Key
+  requires wf: typeis(seq, "ansi.CSI") ==> CSIWF(unbox(seq, "ansi.CSI"))
+  ensures C09_csi: (typeis(seq, "ansi.CSI") && len(unbox(seq, "ansi.CSI").Parameters) >= 1) ==>
+        (result.Keycode == KCfinal(unbox(seq, "ansi.CSI")) && result.ShiftedCode == SC(unbox(seq, "ansi.CSI"))
+         && result.BaseLayoutCode == BC(unbox(seq, "ansi.CSI")) && result.Modifiers == MODS(unbox(seq, "ansi.CSI"))
+         && result.EventType == ET(unbox(seq, "ansi.CSI")))
+  ensures C09_csi_default: (typeis(seq, "ansi.CSI") && len(unbox(seq, "ansi.CSI").Parameters) == 0) ==>
+        (result.Keycode == ((unbox(seq, "ansi.CSI").Final == 90) ? KeyTab
+              : (maphas(specialsKeys, mk("specialKey", 1, unbox(seq, "ansi.CSI").Final)) ? mapval(specialsKeys, mk("specialKey", 1, unbox(seq, "ansi.CSI").Final)) : 1))
+         && result.ShiftedCode == 0 && result.BaseLayoutCode == 0 && result.EventType == 0
+         && result.Modifiers == ((unbox(seq, "ansi.CSI").Final == 90) ? 1 : 0))
+  loop 1 invariant outer: CSIWF(seq) && len(seq.Parameters) >= 1 && -1 <= rangeindex && rangeindex < len(seq.Parameters)
+                       && KeyState(key, seq, rangeindex)
+  loop 2 invariant first: CSIWF(seq) && len(seq.Parameters) >= 1 && i == 0 && pm == seq.Parameters[0] && -1 <= rangeindex && rangeindex < len(pm)
+       && key.EventType == 0
+       && (rangeindex < 0 ==> (key.Keycode == 0 && key.Modifiers == 0))
+       && (rangeindex >= 0 ==> (key.Keycode == KC(seq) && key.Modifiers == (IsShiftTab(seq) ? 1 : 0)))
+       && key.ShiftedCode == (rangeindex >= 1 ? pm[1] : 0) && key.BaseLayoutCode == (rangeindex >= 2 ? pm[2] : 0)
+  loop 3 invariant second: CSIWF(seq) && len(seq.Parameters) >= 2 && i == 1 && pm == seq.Parameters[1] && -1 <= rangeindex && rangeindex < len(pm)
+       && key.Keycode == KC(seq) && key.ShiftedCode == SC(seq) && key.BaseLayoutCode == BC(seq)
+       && key.Modifiers == (rangeindex >= 0 ? max(pm[0] - 1, 0) : (IsShiftTab(seq) ? 1 : 0))
+       && key.EventType == (rangeindex >= 1 ? pm[1] - 1 : 0)
+  loop 4 invariant text: CSIWF(seq) && len(seq.Parameters) >= 3 && i == 2
+       && key.Keycode == KC(seq) && key.ShiftedCode == SC(seq) && key.BaseLayoutCode == BC(seq)
+       && key.Modifiers == MODS(seq) && key.EventType == ET(seq) && !(KC(seq) == 27 && seq.Final == 126)
+  ensures C09_c0:  typeis(seq, "ansi.C0") ==>
+        (result.Keycode == C0Key(unbox(seq, "ansi.C0"))
+         && result.EventType == 0 && result.ShiftedCode == 0 && result.BaseLayoutCode == 0
+         && ((unbox(seq, "ansi.C0") == 8 || unbox(seq, "ansi.C0") == 9 || unbox(seq, "ansi.C0") == 13 || unbox(seq, "ansi.C0") == 27)
+               ? result.Modifiers == 0 : (result.Modifiers == ModCtrl || (result.Modifiers == ModShift + 0 && false))))
+  ensures C09_esc: typeis(seq, "ansi.ESC") ==>
+        (result.Keycode == unbox(seq, "ansi.ESC").Final && result.EventType == 0 && result.ShiftedCode == 0 && result.BaseLayoutCode == 0
+         && (result.Modifiers == ModAlt))
+  ensures C09_ss3: typeis(seq, "ansi.SS3") ==>
+        (result.Keycode == SS3Key(unbox(seq, "ansi.SS3")) && result.Modifiers == 0 && result.EventType == 0
+         && result.ShiftedCode == 0 && result.BaseLayoutCode == 0)
 
 -- ------------------------------------------------------------------ colours (C07)
 
